@@ -1,5 +1,6 @@
 """C16 -- affine charts, affine maps, subspace operations (C1, R1c, I1c, U1)."""
 from ..rules import misc_rules as MI
+from ..rules import numpy_rules as NPR
 from ..rules import dtype_rules as DT
 from ..rules import chart_rules as R
 from ..rules import cache_rules as CA
@@ -34,6 +35,7 @@ def run(ctx):
         "Transformation.diagonalize", "Transformation.inv"})
     ctx.do(SI.rule_eig1, only={"Transformation.eigenvector", "Transformation.diagonalize"})
     ctx.do(SI.rule_svd1)
+    ctx.do(NPR.rule_neg0, ["geometry_tools/utils/numerical.py", "geometry_tools/utils/core.py"])
     ctx.do(MI.rule_eigh2, ["geometry_tools/projective.py", "geometry_tools/utils/core.py", "geometry_tools/hyperbolic.py"])
     ctx.do(MI.rule_sgn1, ["geometry_tools/projective.py", "geometry_tools/utils/core.py"])
     ctx.do(DT.rule_cx1, ["geometry_tools/projective.py"])
